@@ -159,8 +159,9 @@ theorem spanTimeConds_pos (r : SearchReq) (hf : 0 < r.fromNs) (ht : 0 < r.toNs) 
 
 theorem unalias_start (fn : String) (v : Expr) :
     unalias searchCols (.logical fn [.raw "start_time_unix_nano", v]) = .logical fn [.raw "timestamp_ns", v] := by
-  have : (tsAliases searchCols).lookup "start_time_unix_nano" = some "timestamp_ns" := by decide
-  simp [unalias, this]
+  have : (aliasList searchCols).lookup "start_time_unix_nano" = some (.raw "timestamp_ns") := by
+    simp [aliasList, searchCols, List.lookup]
+  simp [unalias, this, isTsCol]
 
 /-- the span scan of every plan carries both timestamp bounds, exactly the window `(from, to]` -/
 theorem planSearch_spanBounded (r : SearchReq) (ver : VersionInfo) (hf : 0 < r.fromNs) (ht : 0 < r.toNs) :
@@ -230,7 +231,7 @@ theorem cmp_le_int (o : Oracles) (r : Row) (c : String) (f : Int)
 /-- the alias column WHERE compares is the span's own timestamp (unless the table had a column of that name) -/
 theorem aliasRow_start (o : Oracles) (s : Row) (h : s.lookup "start_time_unix_nano" = none) :
     (aliasRow o searchCols s).get "start_time_unix_nano" = s.get "timestamp_ns" := by
-  simp [aliasRow, searchCols, Row.get, List.lookup_append, h, List.lookup]
+  simp [aliasRow, aliasList, searchCols, Row.get, List.lookup_append, h, List.lookup]
 
 /-- **planSearch_rows_in_window.** Every row the statement of any request returns, in any version state, over any
     database: its `start_time_unix_nano` is an integer in `(from, to]`. -/
@@ -297,7 +298,7 @@ theorem spanDurConds_unbounded (w : Window) (r : SearchReq) :
     (((spanDurConds r).flatMap splice).map (unalias searchCols)).any (isLowerTs w) = false := by
   unfold spanDurConds
   by_cases h1 : 0 < r.minDurNs <;> by_cases h2 : 0 < r.maxDurNs <;>
-    simp [h1, h2, gt, le, splice_logical, unalias, tsAliases, searchCols, isTsCol, isLowerTs, List.lookup]
+    simp [h1, h2, gt, le, splice_logical, unalias, aliasList, searchCols, isTsCol, isLowerTs, List.lookup]
 
 theorem idx_only_confined (cfg : Cfg) (r : SearchReq) (ver : VersionInfo) (tags : List Tag) (h : SearchCfg cfg r)
     (htags : r.tags = some tags) (hf : 0 < r.fromNs) (ht : 0 < r.toNs) :
@@ -409,5 +410,166 @@ theorem queryRequest_confined (cfg : Cfg) (q : QueryReq)
   unfold queryRequest confined
   simp only [withsConfined, hb, Bool.true_and, Bool.and_true]
   simp [bodyConfined, fromTable]
+
+end Qryn.Confine
+
+namespace Qryn.Confine
+open Qryn Qryn.Sql Qryn.Tempo
+
+/-! ### soundness of the span-scan rule for ANY statement of the shape (the one the driver applies to the statements the
+    real code sends) -/
+theorem lookup_mapSnd {α β : Type} (l : List (String × α)) (f : α → β) (k : String) :
+    (l.map (fun p => (p.1, f p.2))).lookup k = (l.lookup k).map f := by
+  induction l with
+  | nil => rfl
+  | cons p rest ih =>
+    simp only [List.map_cons, List.lookup]
+    split <;> simp_all
+
+theorem aliasRow_get_base (o : Oracles) (cols : List Expr) (s : Row) (c : String) (v : Val) (h : s.lookup c = some v) :
+    (aliasRow o cols s).get c = v := by
+  simp [aliasRow, Row.get, List.lookup_append, h]
+
+theorem aliasRow_get_alias (o : Oracles) (cols : List Expr) (s : Row) (c : String) (e : Expr)
+    (hs : s.lookup c = none) (ha : (aliasList cols).lookup c = some e) : (aliasRow o cols s).get c = evalE o [] s e := by
+  simp [aliasRow, Row.get, List.lookup_append, hs, lookup_mapSnd, ha]
+
+/-- what `unalias` can turn into a comparison of a column with an integer -/
+theorem unalias_shape (cols : List Expr) (e : Expr) (fn c : String) (f : Int)
+    (h : unalias cols e = .logical fn [.raw c, .int f]) :
+    e = .logical fn [.raw c, .int f] ∨
+    ∃ c0, e = .logical fn [.raw c0, .int f] ∧ (aliasList cols).lookup c0 = some (.raw c) ∧ isTsCol c = true := by
+  unfold unalias at h
+  split at h
+  · next fn' c0 v =>
+    split at h
+    · next c' hl =>
+      split at h
+      · next hts =>
+        injection h with h1 h2
+        injection h2 with h2 h3
+        injection h2 with h2
+        injection h3 with h3 _
+        subst h1 h2 h3
+        exact Or.inr ⟨c0, rfl, hl, hts⟩
+      · exact Or.inl h
+    · exact Or.inl h
+  · exact Or.inl h
+
+theorem normDate_int (fn c : String) (f : Int) : normDate (.logical fn [.raw c, .int f]) = .logical fn [.raw c, .int f] := rfl
+
+theorem normDate_and (cs : List Expr) : normDate (.logical "and" cs) = .logical "and" cs := by
+  unfold normDate
+  split
+  · next fn l d heq =>
+    injection heq with h1 h2
+    subst h1 h2
+    simp
+  · rfl
+
+theorem lookup_some_key {β : Type} (l : List (String × β)) (k : String) (v : β) (h : l.lookup k = some v) : k ∈ l.map (·.1) := by
+  induction l with
+  | nil => cases h
+  | cons e rest ih =>
+    obtain ⟨k', v'⟩ := e
+    simp only [List.lookup] at h
+    split at h
+    · next heq => simp [eq_of_beq heq]
+    · simp [ih h]
+
+/-- a conjunct a row passes: each of its spliced parts that is a column-vs-integer comparison holds of the row -/
+theorem condHolds_splice (o : Oracles) (row : Row) (e0 : Expr) (h : condHolds o row e0 = true)
+    (fn c : String) (f : Int) (he : .logical fn [.raw c, .int f] ∈ splice e0) :
+    evalB o [] row (.logical fn [.raw c, .int f]) = true := by
+  by_cases hx : ∃ cs, e0 = .logical "and" cs
+  · obtain ⟨cs, rfl⟩ := hx
+    simp only [condHolds, normDate_and] at h
+    exact splice_holds o [] row _ h _ he
+  · have hs : splice e0 = [e0] := by
+      unfold splice
+      split
+      · rename_i cs; exact absurd ⟨cs, rfl⟩ hx
+      · rfl
+    rw [hs, List.mem_singleton] at he
+    subst he
+    simpa [condHolds, normDate_int] using h
+
+/-- one recognised bound of the span scan, carried from the alias row to a timestamp column of that row -/
+theorem bound_carried {P : Int → Prop} (o : Oracles) (cols : List Expr) (s : Row) (p : Expr → Bool) (e0 e : Expr)
+    (hA : ∀ a ∈ (aliasList cols).map (·.1), s.lookup a = none)
+    (hshape : ∀ x, p x = true → ∃ fn c f, x = .logical fn [.raw c, .int f] ∧ fn ≠ "and" ∧ fn ≠ "or")
+    (hsound : ∀ (r : Row) (x : Expr), p x = true → evalB o [] r x = true → ∃ c ts, isTsCol c = true ∧ r.get c = .int ts ∧ P ts)
+    (hh : condHolds o (aliasRow o cols s) e0 = true) (he : e ∈ splice e0) (hp : p (unalias cols e) = true) :
+    ∃ c ts, isTsCol c = true ∧ (aliasRow o cols s).get c = .int ts ∧ P ts := by
+  obtain ⟨fn, c, f, hu, h1, h2⟩ := hshape _ hp
+  rcases unalias_shape cols e fn c f hu with rfl | ⟨c0, rfl, hl, _⟩
+  · -- written on the column itself
+    have hev := condHolds_splice o _ e0 hh fn c f he
+    rw [hu] at hp
+    exact hsound _ _ hp hev
+  · -- written on an alias of a timestamp column: the alias column of the row is that column of the span
+    have hev := condHolds_splice o _ e0 hh fn c0 f he
+    have hnone : s.lookup c0 = none := hA _ (lookup_some_key (aliasList cols) c0 _ hl)
+    have hget : (aliasRow o cols s).get c0 = s.get c := by
+      rw [aliasRow_get_alias o cols s c0 _ hnone hl]; simp
+    have hev' : evalB o [] s (.logical fn [.raw c, .int f]) = true := by
+      have e1 := evalE_cmp (o := o) (env := []) (r := aliasRow o cols s) fn (.raw c0) (.int f) h1 h2
+      have e2 := evalE_cmp (o := o) (env := []) (r := s) fn (.raw c) (.int f) h1 h2
+      simp only [evalB, e1, e2, evalE_raw, evalE_int, hget] at hev ⊢
+      exact hev
+    rw [hu] at hp
+    obtain ⟨c', ts, hc', hg', hP⟩ := hsound s _ hp hev'
+    refine ⟨c', ts, hc', ?_, hP⟩
+    cases hlk : s.lookup c' with
+    | none => simp [Row.get, hlk] at hg'
+    | some v =>
+      rw [aliasRow_get_base o cols s c' v hlk]
+      simpa [Row.get, hlk] using hg'
+
+theorem isLowerTs_shape (w : Window) (x : Expr) (h : isLowerTs w x = true) :
+    ∃ fn c f, x = .logical fn [.raw c, .int f] ∧ fn ≠ "and" ∧ fn ≠ "or" := by
+  unfold isLowerTs at h
+  split at h
+  · exact ⟨_, _, _, rfl, by decide, by decide⟩
+  · exact ⟨_, _, _, rfl, by decide, by decide⟩
+  · cases h
+
+theorem isUpperTs_shape (w : Window) (x : Expr) (h : isUpperTs w x = true) :
+    ∃ fn c f, x = .logical fn [.raw c, .int f] ∧ fn ≠ "and" ∧ fn ≠ "or" := by
+  unfold isUpperTs at h
+  split at h
+  · exact ⟨_, _, _, rfl, by decide, by decide⟩
+  · exact ⟨_, _, _, rfl, by decide, by decide⟩
+  · cases h
+
+/-- **spanBounded_sound.** For ANY statement of the shape: if the span scan is bounded (`spanBounded`), every row it
+    returns has an integer timestamp column not below `from − slack` and one not above `to + slack` — provided the span
+    table has no column named like an alias of the SELECT list (so that an alias in WHERE means the aliased column). -/
+theorem spanBounded_sound (o : Oracles) (w : Window) (db : SearchDb) (st : SearchStmt) (hb : spanBounded w st = true)
+    (hA : ∀ s ∈ db.spans, ∀ a ∈ (aliasList st.cols).map (·.1), s.lookup a = none)
+    (row : Row) (h : row ∈ searchRows o db st) :
+    (∃ c ts, isTsCol c = true ∧ row.get c = .int ts ∧ w.fromNs - w.slackNs ≤ ts) ∧
+    (∃ c ts, isTsCol c = true ∧ row.get c = .int ts ∧ ts ≤ w.toNs + w.slackNs) := by
+  obtain ⟨⟨s, hs, rfl⟩, hc⟩ := searchRows_sub o db st row h
+  have hall := List.all_eq_true.mp hc
+  simp only [spanBounded, Bool.and_eq_true, List.any_map, List.any_eq_true, Function.comp] at hb
+  obtain ⟨⟨e1, he1, hp1⟩, ⟨e2, he2, hp2⟩⟩ := hb
+  have pick : ∀ e, e ∈ st.plainConds.flatMap splice → ∃ e0, condHolds o (aliasRow o st.cols s) e0 = true ∧ e ∈ splice e0 := by
+    intro e he
+    obtain ⟨e0, he0, hes⟩ := List.mem_flatMap.mp he
+    refine ⟨e0, ?_, hes⟩
+    simp only [SearchStmt.plainConds, List.mem_filterMap] at he0
+    obtain ⟨cnd, hcm, hce⟩ := he0
+    cases cnd with
+    | inIdx l q => cases hce
+    | plain e' =>
+      injection hce with hce; subst hce
+      exact hall _ hcm
+  obtain ⟨a1, ha1, hs1⟩ := pick e1 he1
+  obtain ⟨a2, ha2, hs2⟩ := pick e2 he2
+  exact ⟨bound_carried o st.cols s (isLowerTs w) a1 e1 (hA s hs) (isLowerTs_shape w)
+      (fun r x hx hev => lower_sound o [] r w x hx hev) ha1 hs1 hp1,
+    bound_carried o st.cols s (isUpperTs w) a2 e2 (hA s hs) (isUpperTs_shape w)
+      (fun r x hx hev => upper_sound o [] r w x hx hev) ha2 hs2 hp2⟩
 
 end Qryn.Confine
